@@ -9,7 +9,8 @@ Translated, from the working tree (emits Generated/ObsProg.lean):
 The translation is purely syntactic (one ObsL constructor per Python construct).  Keyword arguments are put in
 the callee's parameter order (the argument expressions of the subset have no effect); an omitted parameter
 takes its default if that is the literal None.  Fails closed (raises) on anything outside the subset.
-The terms do not record parameter defaults (callers outside the translated text see them): they must be the
+Parameter defaults are part of the term (`defaults` / `initDefaults`; an omitted argument is `none` at the
+call site and the interpreter takes the callee's default): they must be the
 literals None / True / False.
 """
 import ast
@@ -20,6 +21,11 @@ TARGET = "ObsProg.lean"
 FNS = ["add_or_remove_notifiers", "undo_processed"]
 CLASS = "_AddOrRemoveNotifier"
 APPLY = "apply_observers"
+HELPERS_MOD = "_has_traits_helpers.py"
+CHANGE_HANDLER = "observer_change_handler"     # the maintainer of named / filtered links
+UNOBS = "UNOBSERVABLE_VALUES"
+EXC_ONLY = {"NotifierNotFound": ".notifierNotFound"}
+EVENT_ATTRS = {"old": "evOld", "new": "evNew"}
 OBSERVE_MOD = "traits.observation._observe"
 FLD = {"object": ".object", "graph": ".graph", "handler": ".handler", "target": ".target",
        "dispatcher": ".dispatcher", "remove": ".remove", "_owns_processed": ".ownsProcessed",
@@ -85,7 +91,8 @@ class Fn:
         self.init_sig = init_sig      # signature of _AddOrRemoveNotifier.__init__ (None: class not in scope)
         self.methods = methods        # names of the methods of the class
         self.reserved = set(fn_sigs) | {"self", CLASS}
-        self.params = [s[0] for s in signature(fn, kind != "function")]
+        self.sig = signature(fn, kind != "function")
+        self.params = [s[0] for s in self.sig]
         self.slots = {}
         for p in self.params:
             self.slot(p)
@@ -96,6 +103,10 @@ class Fn:
         if name not in self.slots:
             self.slots[name] = len(self.slots)
         return self.slots[name]
+
+    def defaults(self):
+        """the parameter defaults, as a Lean list of `Option Ex` (literals None / True / False only)"""
+        return "[%s]" % ", ".join("none" if d is None else "(some %s)" % self.ex(d) for _, _, d in self.sig)
 
     def comment(self):
         return "slots" + "".join(" %d=%s" % (i, n) for n, i in sorted(self.slots.items(), key=lambda kv: kv[1]))
@@ -119,6 +130,9 @@ class Fn:
             na = node_attr(n, ("notify",))
             if na:
                 return "(.nodeNotify %s)" % E(na[0])
+            if n.attr in EVENT_ATTRS and isinstance(n.value, ast.Name) and n.value.id in self.slots \
+                    and self.kind == "function":
+                return "(.%s %s)" % (EVENT_ATTRS[n.attr], E(n.value))
             raise Unknown("attribute %s" % short(n))
         if isinstance(n, ast.List):
             if not n.elts:
@@ -148,11 +162,22 @@ class Fn:
             na = node_attr(n.func, NODE_CALLS)
             if na:
                 ctor, names = NODE_CALLS[na[1]]
-                return "(.%s %s %s)" % (ctor, E(na[0]), " ".join(self.bind(n, [(x, True, None) for x in names])))
+                return "(.%s %s %s)" % (ctor, E(na[0]), " ".join(self.bind(n, [(x, True, None) for x in names], opt=False)))
             raise Unknown("call %s" % short(n))
         raise Unknown("expression %s" % short(n))
 
-    def bind(self, call, sig):
+    def unobservable_test(self, t):
+        """`all(<e> is not skipped for skipped in UNOBSERVABLE_VALUES)` -> e"""
+        if (isinstance(t, ast.Call) and is_name(t.func, "all") and len(t.args) == 1 and not t.keywords
+                and isinstance(t.args[0], ast.GeneratorExp) and len(t.args[0].generators) == 1):
+            g, c = t.args[0].generators[0], t.args[0].elt
+            if (not g.ifs and not g.is_async and isinstance(g.target, ast.Name) and is_name(g.iter, UNOBS)
+                    and isinstance(c, ast.Compare) and len(c.ops) == 1 and isinstance(c.ops[0], ast.IsNot)
+                    and is_name(c.comparators[0], g.target.id) and g.target.id not in self.slots):
+                return c.left
+        return None
+
+    def bind(self, call, sig, opt=True):
         """the arguments of a call, in the callee's parameter order"""
         names = [s[0] for s in sig]
         if len(call.args) > sum(1 for s in sig if s[1]):
@@ -165,9 +190,9 @@ class Fn:
         out = []
         for name, _, default in sig:
             if name in given:
-                out.append(self.ex(given[name]))
-            elif default is not None and is_none(default):
-                out.append(".noneLit")
+                out.append(("(some %s)" if opt else "%s") % self.ex(given[name]))
+            elif default is not None:
+                out.append("none")          # omitted: the interpreter takes the callee's default (part of its term)
             else:
                 raise Unknown("parameter %s not supplied in %s" % (name, short(call)))
         return out
@@ -200,6 +225,10 @@ class Fn:
                 return ["(.construct %d %s)" % (self.slot(t.id), args)]
             e = self.ex(v)
             return ["(.assign %d %s)" % (self.slot(t.id), e)]
+        if isinstance(s, ast.If) and self.unobservable_test(s.test) is not None:
+            if s.orelse:
+                raise Unknown("else branch of an UNOBSERVABLE_VALUES test")
+            return ["(.ifObservable %s %s)" % (self.ex(self.unobservable_test(s.test)), self.block(s.body))]
         if isinstance(s, ast.If):
             return ["(.ifS %s %s %s)" % (self.ex(s.test), self.block(s.body), self.block(s.orelse))]
         if isinstance(s, ast.Return) and s.value is None:
@@ -238,6 +267,9 @@ class Fn:
             return ["(.whilePop %s %d %d %s)" % (l, a, b, self.block(s.body[1:]))]
         if isinstance(s, ast.Try):
             hs = s.handlers
+            if (not s.finalbody and not s.orelse and len(hs) == 1 and isinstance(hs[0].type, ast.Name)
+                    and hs[0].type.id in EXC_ONLY and hs[0].name is None):
+                return ["(.tryOnly %s %s %s)" % (self.block(s.body), EXC_ONLY[hs[0].type.id], self.block(hs[0].body))]
             if s.finalbody or len(hs) != 1 or not is_name(hs[0].type, "Exception") or hs[0].name is not None:
                 raise Unknown("try statement shape")
             return ["(.tryS %s %s %s)" % (self.block(s.body), self.block(hs[0].body), self.block(s.orelse))]
@@ -320,13 +352,32 @@ def emit(traits_dir):
     if len(imps) != 1 or sorted((a.name, a.asname) for a in imps[0].names) != sorted((f, None) for f in FNS):
         raise Unknown("observe.py does not import exactly %s from %s" % (FNS, OBSERVE_MOD))
 
+    tree3, defs3 = toplevel(os.path.join(obs, HELPERS_MOD), [FNS[0], CHANGE_HANDLER, UNOBS] + list(EXC_ONLY))
+    if not isinstance(defs3.get(CHANGE_HANDLER), ast.FunctionDef):
+        raise Unknown("function %s not found" % CHANGE_HANDLER)
+    imps3 = [n for n in tree3.body if isinstance(n, ast.ImportFrom) and n.module == OBSERVE_MOD and n.level == 0]
+    if len(imps3) != 1 or [(a.name, a.asname) for a in imps3[0].names] != [(FNS[0], None)]:
+        raise Unknown("%s does not import exactly %s from %s" % (HELPERS_MOD, FNS[0], OBSERVE_MOD))
+    unobs = [n for n in tree3.body if isinstance(n, ast.Assign) and len(n.targets) == 1 and is_name(n.targets[0], UNOBS)]
+    if len(unobs) != 1 or not isinstance(unobs[0].value, ast.List):
+        raise Unknown("%s is not a module-level list display" % UNOBS)
+    unames = []
+    for e in unobs[0].value.elts:
+        if is_none(e):
+            unames.append("None")
+        elif isinstance(e, ast.Name):
+            unames.append(e.id)
+        else:
+            raise Unknown("element of %s: %s" % (UNOBS, short(e)))
+
     fns = [Fn(defs[f], "function", fn_sigs, init_sig, names) for f in FNS]
     fns.append(Fn(defs2[APPLY], "function", fn_sigs, None, []))
+    fns.append(Fn(defs3[CHANGE_HANDLER], "function", {FNS[0]: fn_sigs[FNS[0]]}, None, []))
     frows = []
     for f in fns:
         b = f.block(f.fn.body)          # before comment(): the body allocates the slots of the locals
-        frows.append('    -- %s: %s\n    ("%s", { nparams := %d, body :=\n      %s })' % (
-            f.fn.name, f.comment(), f.fn.name, len(f.params), b))
+        frows.append('    -- %s: %s\n    ("%s", { nparams := %d, defaults := %s, body :=\n      %s })' % (
+            f.fn.name, f.comment(), f.fn.name, len(f.params), f.defaults(), b))
     init = Fn(inits[0], "init", {}, None, [])
     irows = init.init_rows()
     mrows = []
@@ -343,8 +394,11 @@ def emit(traits_dir):
              "  fns := [", ",\n".join(frows), "  ],",
              "  -- %s.__init__: %s" % (CLASS, init.comment()),
              "  initParams := %d," % len(init.params),
+             "  initDefaults := %s," % init.defaults(),
              "  init := [", ",\n".join(irows), "  ],",
-             "  methods := [", ",\n".join(mrows), "  ] }", "",
+             "  methods := [", ",\n".join(mrows), "  ],",
+             "  -- %s of traits/observation/%s" % (UNOBS, HELPERS_MOD),
+             "  unobservable := [%s] }" % ", ".join('"%s"' % u for u in unames), "",
              "end TraitsVerif.Generated"]
     return "\n".join(lines) + "\n"
 
